@@ -33,8 +33,12 @@ def unit_deps(gen, unit):
             if toks[i + 1] == '(' and (t[0].isalpha() or t[0] == '_'):
                 names.add(t)
     deps = set()
+    import re as _re
     for it in gen.items:
         if it.entry.unit == unit or it.kind not in ('fn', 'const', 'proof'):
+            continue
+        sc = it.entry.opts.get('scope')
+        if sc is not None and _re.fullmatch(sc, unit) is None:
             continue
         short = it.key.split('::')[-1] if it.kind != 'proof' else it.entry.key
         if short in names:
